@@ -35,12 +35,29 @@ OPS = {
     "le": ("C", "EE"), "ge": ("C", "EE"), "eq": ("C", "EE"), "lt": ("C", "EE"), "gt": ("C", "EE"),
     "les": ("C", "Es"), "ges": ("C", "Es"), "eqs": ("C", "Es"), "lts": ("C", "Es"), "gts": ("C", "Es"),
     "sle": ("C", "sE"), "sge": ("C", "sE"), "seq": ("C", "sE"),
+    # augmented assignments: `x = a; x += b` must denote a + b and leave the object a (which other holders still reference) alone
+    "piadd": ("P", "PP"), "pisub": ("P", "PP"), "pimuls": ("P", "Ps"), "pidiv": ("P", "Pd"),
+    "eiadd": ("E", "EE"), "eisub": ("E", "EE"), "eiadds": ("E", "Es"), "eimuls": ("E", "Es"), "eidiv": ("E", "Ed"),
 }
 OP_ORDER = list(OPS)
+INPLACE = {"piadd": "padd", "pisub": "psub", "pimuls": "pmuls", "pidiv": "pdiv",
+           "eiadd": "eadd", "eisub": "esub", "eiadds": "eadds", "eimuls": "emuls", "eidiv": "ediv"}
 
 
 def real_apply(op, a, b):
     """The real DSL operation (b is None for unary operators)."""
+    if op in INPLACE:
+        x = a
+        base = INPLACE[op]
+        if base in ("padd", "eadd", "eadds"):
+            x += b
+        elif base in ("psub", "esub"):
+            x -= b
+        elif base in ("pmuls", "emuls"):
+            x *= b
+        else:
+            x /= b
+        return x
     if op == "padd" or op == "eadd" or op == "eadds": return a + b
     if op == "esadd": return a + b            # a is the scalar: s + e
     if op == "psub" or op == "esub" or op == "esubs": return a - b
@@ -234,14 +251,17 @@ def step(ctx, op, operands):
             res = real_apply(op, real_args[0], real_args[1] if len(real_args) > 1 else None)
     except Exception as e:
         return None, None, [("raise:%s" % op, "well-typed operation raised %s: %s" % (type(e).__name__, e))], 0.0, 0.0
-    ref = ref_apply(op, ref_args[0], ref_args[1] if len(ref_args) > 1 else None)
+    base = INPLACE.get(op, op)
+    ref = ref_apply(base, ref_args[0], ref_args[1] if len(ref_args) > 1 else None)
     carrier = getattr(res, "expression", res)
     try:
         rmax = raw_max(carrier)
     except Exception:
         rmax = 0.0
-    err = err_bound(op, operands, kinds, rmax)
-    msg = compare(ctx, op, res, ref, err)
+    err = err_bound(base, operands, kinds, rmax)
+    msg = compare(ctx, base, res, ref, err)
+    if op in INPLACE and res is operands[0].obj:
+        problems.append(("operand-mutated:%s" % op, "the augmented assignment returned its left operand object itself (modified in place)"))
     if msg:
         problems.append(("meaning:%s" % op, msg))
     for k, o in zip(kinds, operands):
@@ -329,7 +349,9 @@ class Enum(object):
             for op in OP_ORDER:
                 kind, kinds = OPS[op]
                 for refs, operands in self.operand_lists(kinds, size):
-                    if last or kind == "C":
+                    if last or kind == "C" or op in INPLACE:
+                        # (augmented assignments denote what their plain operator denotes: judged at every size, never
+                        #  stored as operands of larger trees)
                         self.cand += 1
                         if self.cand % self.nshards != self.shard:
                             continue
